@@ -1111,6 +1111,36 @@ pub fn xcheck_s2<O: XOp>(op: &O, x: &[BigUint], seed: u64, n_faults: usize, exha
     Ok((stats.clone(), Verdict::of(nt, "S2x").with(name)))
 }
 
+/// S2 for ops whose honest output is not unique (non-canonical
+/// decompositions): the baseline is the library's own (read-back) output, which
+/// must be accepted and judged correct; sampled single faults as in `xcheck_s2`.
+pub fn xcheck_s2_readback<O: XOp>(op: &O, x: &[BigUint], seed: u64, n_faults: usize, lb: u32, m: &BigUint) -> Result<(XStats, Verdict), Failure> {
+    let name = op.xname();
+    let mut stats = XStats::default();
+    if op.xreference(x).is_none() {
+        return Ok((stats, Verdict::trivial("out-of-domain-input-skipped")));
+    }
+    let honest = op.xrun(x, XInst::ReadBack(op.x_n_public(x)), HashMap::new());
+    if !honest.outcome.accepted() {
+        return Err(Failure::new(format!("{name}:incomplete:{}", honest.outcome.label()), format!("honest witness for x={x:?} is not accepted: {:?}", honest.outcome)));
+    }
+    if !op.xjudge(&honest.public) {
+        return Err(Failure::new(format!("{name}:wrong-honest-output"), format!("honest witness for x={x:?} exposes {:?}", honest.public)));
+    }
+    let n = honest.log.len();
+    let mut rng = SplitMix(seed);
+    let mut plans = vec![];
+    for _ in 0..n_faults {
+        if n > 0 {
+            let i = rng.below(n as u64) as usize;
+            plans.push(("single".to_string(), HashMap::from([(i, xfault_values(&mut rng, lb, m))])));
+        }
+    }
+    run_plans(op, x, &honest.public, plans, &mut stats)?;
+    let nt = stats.rejected + stats.accepted_correct > 0;
+    Ok((stats.clone(), Verdict::of(nt, "S2-readback").with(name)))
+}
+
 /// Inputs outside the documented domain (violated assertion, division by
 /// zero, value not fitting the requested width): no run may be accepted —
 /// honest witness generation with read-back, and sampled single faults.
